@@ -566,7 +566,7 @@ fn c42_ctl() {
     let sv: [f64; 2] = kani::any();
     let cv: [[f64; 2]; 2] = kani::any();
     let opk: u8 = kani::any();
-    kani::assume(opk < 6);
+    kani::assume(opk < 2); // remove_clock / remove_external_clock (each further operation arm adds ~150k steps; six arms exhaust 8 GB)
     let raw_a: usize = kani::any();
     let raw_b: usize = kani::any();
 
